@@ -134,6 +134,7 @@ func runC09(c *Ctx) {
 	// R2
 	allowedPkgFns := map[string]bool{"fmt.Sprintf": true, "errors.New": true, "fmt.Errorf": true}
 	ng := 0
+	goOrd := map[*ssa.Function]int{}
 	for _, f := range c.AllFns {
 		if f.Pkg == nil || f.Pkg.Pkg.Path() == pParser {
 			continue
@@ -145,7 +146,8 @@ func runC09(c *Ctx) {
 				return
 			}
 			ng++
-			key := fmt.Sprintf("%s#go@%s", fnName(rootOf(f)), c.pos(g.Pos()))
+			goOrd[rootOf(f)]++
+			key := fmt.Sprintf("%s#go%d", fnName(rootOf(f)), goOrd[rootOf(f)])
 			lit := closureOfGo(g)
 			if lit == nil {
 				c.Check("R2-goroutines-cannot-die", key, false, g.Pos(), "go statement on something other than a function literal")
@@ -383,8 +385,8 @@ func (c *Ctx) ruleIndexInRange(rule string, fn *ssa.Function) {
 		default:
 			// a counter compared with len of the same slice
 			okC := false
-			if cell := x.Cell(ia.Index); cell != nil {
-				if bound, ok := x.countedFromZero(cell); ok && x.symInt(bound).equal(lenS) {
+			if cell := x.directCell(x.lastLoad(ia.Index)); cell != nil {
+				if cl := x.countedLoop(cell); cl != nil && cl.boundAdd == 0 && cl.loop.Blocks[ia.Block()] && x.symInt(cl.bound).equal(lenS) {
 					okC = true
 				}
 			}
@@ -426,7 +428,7 @@ func (c *Ctx) ruleLoopInventory(rule string) {
 				case *ssa.If:
 					if bo, ok := t.Cond.(*ssa.BinOp); ok && (bo.Op == token.LSS || bo.Op == token.LEQ) {
 						if cell := x.Cell(bo.X); cell != nil {
-							if _, ok := x.countedFromZero(cell); ok {
+							if cl := x.countedLoop(cell); cl != nil && cl.loop == l {
 								kind = "counted loop"
 							} else if x.monotoneCounter(cell, l) {
 								kind = "counted loop"
